@@ -244,10 +244,10 @@ type obsCtx struct {
 func (o obsCtx) fail(observer, format string, args ...any) {
 	key := "mismatch:" + o.op + "/" + observer
 	switch {
+	case o.padding: // an operand (or the result) carries padding bits left by Not: that is the cause
+		key = "Not:padding-bits"
 	case o.class != "":
 		key = o.class
-	case o.padding:
-		key = "Not:padding-bits"
 	}
 	w := map[string]any{"observer": observer}
 	for k, v := range o.w {
